@@ -117,7 +117,9 @@ N3 == {"a", "b", "c"}
 Core == {"ann", "annval", "fkwT", "fkwFd", "finitF", "classvarN", "initvar", "prop", "unann", "kwonly"}
 \* bases[i]: classes class i may derive from (0 = no base); Chain = every class derives from the previous one
 Chain == <<{0}, {1}, {2}>>
-DB(nc, nf, forms, hdrs, names, bases) == [mode |-> "enum", nc |-> nc, nf |-> nf, forms |-> forms, hdrs |-> hdrs, names |-> names, bases |-> bases]
+\* loads: how many times the finished module is loaded with the same extension instance (a history of loads)
+DB(nc, nf, forms, hdrs, names, bases) == [mode |-> "enum", nc |-> nc, nf |-> nf, forms |-> forms, hdrs |-> hdrs, names |-> names, bases |-> bases, loads |-> 1]
+DL(d, n) == [d EXCEPT !.loads = n]
 D(nc, nf, forms, hdrs, names) == DB(nc, nf, forms, hdrs, names, Chain)
 \* -- one class
 Dom_single2 == D(1, <<2, 0, 0>>, <<AllForms, {}, {}>>, <<HdrsSingle, {}, {}>>, <<N3, {}, {}>>)
@@ -153,6 +155,11 @@ Dom_tree_q == DB(3, <<1, 1, 1>>, <<{"ann", "annval", "fkwT"}, {"ann", "annval", 
                    {H(TRUE, "u", "u", FALSE), H(FALSE, "u", "u", FALSE)},
                    {H(TRUE, "u", "u", FALSE), H(FALSE, "u", "u", FALSE), H(FALSE, "u", "u", TRUE)}>>,
                  <<N3, {"a", "b"}, {"a", "b", "c"}>>, <<{0}, {1}, {1}>>)
+\* -- histories of loads: the same program loaded twice by one loader / by two loaders sharing the extension instances
+ReloadHdrs == {H(TRUE, "u", "u", FALSE), H(TRUE, "u", "u", TRUE), H(FALSE, "u", "u", FALSE), H(FALSE, "u", "u", TRUE)}
+Dom_reload_q == DL(D(2, <<1, 1, 0>>, <<{"ann", "annval", "fkwT", "initvar", "classvarN"}, {"ann", "annval", "fkwT", "initvar", "classvarN"}, {}>>,
+                     <<ReloadHdrs, ReloadHdrs, {}>>, <<N3, {"a", "b"}, {}>>), 2)
+Dom_reload_t == DL(Dom_pair_w, 3)
 Dom_tree_t == DB(3, <<1, 1, 1>>, <<TripleForms, TripleForms, TripleForms \cup {"kwonly"}>>,
                  <<TripleHdrs \cup {HA(TRUE, "u", "u")}, TripleHdrs, TripleHdrs>>, <<N3, {"a", "b"}, {"a", "b", "c"}>>, <<{0}, {1}, {1}>>)
 Dom_triple_t == D(3, <<1, 1, 1>>, <<TripleForms, TripleForms, TripleForms \cup {"kwonly"}>>,
@@ -161,13 +168,14 @@ Dom_triple_t == D(3, <<1, 1, 1>>, <<TripleForms, TripleForms, TripleForms \cup {
 \* C18_TARGETS (a list of chains written by the driver: seeded random programs beyond the enumerated bounds,
 \* counterexamples of witness runs, stored replay cases); TLC then only evaluates Impl and the reference on them.
 Dom_target  == [mode |-> "target", nc |-> 0, nf |-> <<0, 0, 0>>, forms |-> <<{}, {}, {}>>, hdrs |-> <<{}, {}, {}>>,
-                names |-> <<{}, {}, {}>>, bases |-> <<{}, {}, {}>>]
+                names |-> <<{}, {}, {}>>, bases |-> <<{}, {}, {}>>, loads |-> 2]
 Targets == JsonDeserialize(IOEnv.C18_TARGETS)
 DomOf(d) == CASE d = "single2" -> Dom_single2 [] d = "single3q" -> Dom_single3q [] d = "single3" -> Dom_single3
               [] d = "single4" -> Dom_single4 [] d = "pair_w" -> Dom_pair_w [] d = "pair_q" -> Dom_pair_q
               [] d = "pair_m" -> Dom_pair_m [] d = "pair_t" -> Dom_pair_t [] d = "pairhdr" -> Dom_pairhdr
               [] d = "triple_q" -> Dom_triple_q [] d = "triple_t" -> Dom_triple_t [] d = "target" -> Dom_target
               [] d = "tree_q" -> Dom_tree_q [] d = "tree_t" -> Dom_tree_t
+              [] d = "reload_q" -> Dom_reload_q [] d = "reload_t" -> Dom_reload_t
 
 \* ---------------------------------------------------------------------------------------------
 \* State
@@ -183,8 +191,11 @@ VARIABLES chain,     \* the source so far: Seq([hdr, base, fields: Seq([name, fo
           k,         \* index of the class _apply_recursively reaches next
           tid,       \* target mode: index of the program being written (0 otherwise)
           tags,      \* Tags(chain), kept in a variable (TLC does not memoise operators)
-          dom        \* the program space this behaviour belongs to (an element of Doms)
-vars == <<chain, open, pc, wf, py, members, glabels, cache, k, tid, tags, dom>>
+          dom,       \* the program space this behaviour belongs to (an element of Doms)
+          load,      \* number of the current load of the module (same extension instances for every load)
+          processed, \* Griffe: the `processed` set handed to _apply_recursively (0 = the module, i = class i)
+          hist       \* results of the earlier loads: Seq([impl, mem])
+vars == <<chain, open, pc, wf, py, members, glabels, cache, k, tid, tags, dom, load, processed, hist>>
 Dom == DomOf(dom)
 TargetMode == dom = "target"
 
@@ -452,6 +463,7 @@ Init ==
   /\ dom \in Doms
   /\ tid \in (IF dom = "target" THEN 1..Len(Targets) ELSE {0})
   /\ tags = {}
+  /\ load = 1 /\ processed = {} /\ hist = <<>>
 
 T == Targets[tid]
 
@@ -466,7 +478,7 @@ DefClass ==        \* `@dataclass(...)` / `class Ci(Ci-1):`
           /\ t \subseteq Allow
           /\ chain' = ch /\ tags' = t
   /\ open' = TRUE
-  /\ UNCHANGED <<pc, wf, py, members, glabels, cache, k, tid, dom>>
+  /\ UNCHANGED <<pc, wf, py, members, glabels, cache, k, tid, dom, load, processed, hist>>
 
 \* the statements that may come next in the body of the open class
 Candidates(c) ==
@@ -492,7 +504,7 @@ DefField ==        \* one more statement in the body of the open class
                t == Tags(ch)
            IN /\ t \subseteq Allow
               /\ chain' = ch /\ tags' = t
-  /\ UNCHANGED <<open, pc, wf, py, members, glabels, cache, k, tid, dom>>
+  /\ UNCHANGED <<open, pc, wf, py, members, glabels, cache, k, tid, dom, load, processed, hist>>
 
 EndClass ==        \* the class statement ends: the visitor has its members, CPython runs the decorator
   /\ pc = "build" /\ open
@@ -506,18 +518,26 @@ EndClass ==        \* the class statement ends: the visitor has its members, CPy
         /\ glabels' = Append(glabels, IF c.hdr.dc THEN {"dataclass"} ELSE {})     \* decorators_to_labels
         /\ cache' = Append(cache, [set |-> FALSE, val |-> <<>>])
   /\ open' = FALSE
-  /\ UNCHANGED <<chain, pc, k, tid, tags, dom>>
+  /\ UNCHANGED <<chain, pc, k, tid, tags, dom, load, processed, hist>>
+
+\* DataclassesExtension.on_package_loaded: `_apply_recursively(pkg, set())` - a NEW set for every event; the module
+\* itself is the first path put into it (and no module path is in a new set, so the walk always starts)
+FreshProcessed == {0}
 
 EndModule ==       \* GriffeLoader._post_load -> extensions.call("on_package_loaded")
   /\ pc = "build" /\ ~open /\ N >= 1
   /\ (TargetMode => (N = Len(T) \/ ~wf))
   /\ pc' = "apply" /\ k' = 1
-  /\ UNCHANGED <<chain, open, wf, py, members, glabels, cache, tid, tags, dom>>
+  /\ processed' = FreshProcessed
+  /\ UNCHANGED <<chain, open, wf, py, members, glabels, cache, tid, tags, dom, load, hist>>
 
 \* _apply_recursively reaches class k
 ApplyRecursively ==
   /\ pc = "apply" /\ k <= N
-  /\ IF HasMember(members[k], "__init__") /\ "labelhand" \notin Fix
+  /\ processed' = processed \cup {k}                     \* processed.add(mod_cls.canonical_path)
+  /\ IF k \in processed                                  \* if mod_cls.canonical_path in processed: return
+     THEN UNCHANGED <<members, glabels, cache>>
+     ELSE IF HasMember(members[k], "__init__") /\ "labelhand" \notin Fix
      THEN UNCHANGED <<members, glabels, cache>>          \* guard: "__init__" not in mod_cls.members
      ELSE
        LET guarded == HasMember(members[k], "__init__")            \* only with the labelhand fix: label, nothing else
@@ -541,9 +561,30 @@ ApplyRecursively ==
           /\ members' = [members EXCEPT ![k] = pruned]
   /\ k' = k + 1
   /\ pc' = IF k = N THEN "done" ELSE "apply"
+  /\ UNCHANGED <<chain, open, wf, py, tid, tags, dom, load, hist>>
+
+\* ---- a history of loads ----------------------------------------------------------------------------
+\* The module is loaded again while the extension instances live on: loader.load(...) once more on the same
+\* GriffeLoader, or a second GriffeLoader built with `extensions=first.extensions`.  The visitor builds a NEW tree
+\* with the same paths (fresh members and labels; new Class objects, hence misses in functools.cache), CPython's
+\* classes are what they were, and on_package_loaded fires again.  Nothing of the extension survives a load.
+Loads == IF TargetMode THEN Dom_target.loads ELSE Dom.loads
+ImplResOf(ms, ls, i) ==
+  [own |-> IF HasMember(ms[i], "__init__") THEN GetMember(ms[i], "__init__").origin ELSE "none",
+   params |-> IF HasMember(ms[i], "__init__") THEN GetMember(ms[i], "__init__").params ELSE <<>>,
+   dataclass |-> "dataclass" \in ls[i]]
+LoadAgain ==
+  /\ pc = "done" /\ load < Loads
+  /\ hist' = Append(hist, [impl |-> [i \in 1..N |-> ImplResOf(members, glabels, i)],
+                            mem |-> [i \in 1..N |-> [j \in 1..Len(members[i]) |-> members[i][j].name]]])
+  /\ members' = [i \in 1..N |-> VisitClass(chain[i])]
+  /\ glabels' = [i \in 1..N |-> IF chain[i].hdr.dc THEN {"dataclass"} ELSE {}]
+  /\ cache' = [i \in 1..N |-> [set |-> FALSE, val |-> <<>>]]
+  /\ processed' = FreshProcessed
+  /\ load' = load + 1 /\ k' = 1 /\ pc' = "apply"
   /\ UNCHANGED <<chain, open, wf, py, tid, tags, dom>>
 
-Next == DefClass \/ DefField \/ EndClass \/ EndModule \/ ApplyRecursively
+Next == DefClass \/ DefField \/ EndClass \/ EndModule \/ ApplyRecursively \/ LoadAgain
 Spec == Init /\ [][Next]_vars
 
 \* ---------------------------------------------------------------------------------------------
@@ -551,10 +592,8 @@ Spec == Init /\ [][Next]_vars
 \* ---------------------------------------------------------------------------------------------
 Done == pc = "done"
 
-ImplRes(i) ==
-  [own |-> IF HasMember(members[i], "__init__") THEN GetMember(members[i], "__init__").origin ELSE "none",
-   params |-> IF HasMember(members[i], "__init__") THEN GetMember(members[i], "__init__").params ELSE <<>>,
-   dataclass |-> "dataclass" \in glabels[i]]
+\* (Done is reached once per load: every clause below is a statement about the tree after EVERY load of a history)
+ImplRes(i) == ImplResOf(members, glabels, i)
 PyRes(i) == [own |-> py[i].own, params |-> py[i].init, dataclass |-> py[i].hasfields]
 
 NamesOf(ps) == [j \in 1..Len(ps) |-> ps[j].name]
@@ -590,9 +629,10 @@ EncRes(r) == [own |-> r.own, params |-> Enc(r.params), dataclass |-> r.dataclass
 CaseRec ==
   [chain |-> [i \in 1..N |-> [hdr |-> chain[i].hdr, base |-> chain[i].base,
                               fields |-> [j \in 1..Len(chain[i].fields) |-> <<chain[i].fields[j].name, chain[i].fields[j].form>>]]],
-   dom |-> dom, tid |-> tid, wf |-> wf, tags |-> tags,
+   dom |-> dom, tid |-> tid, wf |-> wf, tags |-> tags, loads |-> load,
+   hist |-> [l \in 1..Len(hist) |-> [impl |-> [i \in 1..N |-> EncRes(hist[l].impl[i])], mem |-> hist[l].mem]],
    impl |-> [i \in 1..N |-> EncRes(ImplRes(i))],
    ref |-> [i \in 1..N |-> EncRes(PyRes(i))],
    mem |-> [i \in 1..N |-> [j \in 1..Len(members[i]) |-> members[i][j].name]]]
-EmitCase == (Emit /\ Done) => PrintT(<<"CASE", ToJson(CaseRec)>>)
+EmitCase == (Emit /\ Done /\ load = Loads) => PrintT(<<"CASE", ToJson(CaseRec)>>)
 =============================================================================
